@@ -198,6 +198,21 @@ func runC04(c *Ctx) {
 		c.Check(okR, "R04.5", FuncName(h)+" :: never returns nil on its own", fpos(h), "returns Get's or UpdateWithConflicts' error value", "returns a constant nil")
 	}
 
+	c.Rule("R04.9", "E1", "owned.State and the typed helpers invoke their delegate at most once (a retry around Modify would re-apply the caller's mutator to the caller's object)", 8)
+
+	for _, m := range p.Methods(pkgOwned, "State") {
+		c.delegateOnce("R04.9", m, "(pkg/state.State)."+m.Name(), "(pkg/state.CoreState)."+m.Name())
+	}
+
+	for _, name := range []string{"StateUpdateWithConflicts", "StateModify", "StateModifyWithResult", "WriterModify", "WriterModifyWithResult"} {
+		c.delegateOnce("R04.9", p.Func("pkg/safe", name), "(pkg/state.State).*", "(pkg/state/owned.Writer).*")
+	}
+
+	// ModifyWithResult applies the mutator to the caller's object in place before Create: it must run at most once per call
+	if m := p.Method(pkgState, "coreWrapper", "ModifyWithResult"); m != nil {
+		c.NoReach("R04.9", "updateFunc(emptyResource) runs at most once", m, After(m, p.CallTo("dyn:param#3")), 1, p.CallTo("dyn:param#3"), CutSpec{})
+	}
+
 	c.Rule("R04.8", "E5", "pkg/safe typed wrappers forward to the untyped helper 1:1 and apply the caller's function exactly once", 10)
 	typedWrappers(c, "R04.8")
 
